@@ -148,6 +148,7 @@ UOrd == Scalars \cup OStrs \cup OLists \cup ONest \cup OSets \cup OMaps
    of C06 and C07, not to the runs that export texts (C08: "tx" \in Need). *)
 Rich == "tx" \notin Need
 F03   == VFine(1, <<4595, 5284, 3195, 5404>>, 54)     \* 0.3                 = 5404319552844595 / 2^54
+F015  == VFine(1, <<4595, 5284, 3195, 5404>>, 55)     \* 0.15: the numerator of 0.3, another exponent
 F0102 == VFine(1, <<1149, 8821, 798, 1351>>, 52)      \* 0.1 + 0.2 = 0.30000000000000004
 F1up  == VFine(1, <<497, 2737, 5996, 4503>>, 52)      \* 1 + 2^-52 = 1.0000000000000002
 F1dn  == VFine(1, <<991, 5474, 1992, 9007>>, 53)      \* 1 - 2^-53 = 0.9999999999999999
@@ -163,7 +164,7 @@ DY3 == <<1000, 1, 1, 0, 0, 0, 0>>
 RichStrs == {VStr(<<101>>), VStr(<<101, 769>>), VStr(<<769>>), VStr(<<233>>), VStr(<<65533>>),
              VStr(<<128512>>), VStr(<<13>>), VStr(<<50>>), VStr(<<49, 48>>), VStr(<<97, 13>>)}
 RichDates == {VDate(DS1), VDate(DS2), VDate(DY1), VDate(DY2), VDate(DY3)}
-RichScalars == {F03, F0102, F1up, F1dn, F25up} \cup RichDates \cup RichStrs
+RichScalars == {F03, F015, F0102, F1up, F1dn, F25up} \cup RichDates \cup RichStrs
 \* sets and maps of dates and of close decimals in all insertion orders (C07: enumeration)
 OSetD == IF Tier = 3 THEN {VDate(D1), VDate(DS1), VDate(DY1)} ELSE {VDate(D1), VDate(DS1), VDate(DY1), VDate(D3)}
 OSetF == IF Tier = 3 THEN {F03, F0102, VDec(1, 2)} ELSE {F03, F0102, VDec(1, 2), F1dn}
@@ -308,6 +309,7 @@ NamedOrders ==
   /\ a \in {VInt(1), VDec(1, 1)} /\ b = F1up => LtT[ia][ib]
   /\ a = F25up /\ b \in {VDec(-1, 1), VInt(-1), VInt(0)} => LtT[ia][ib]
   /\ a = VDec(1, 2) /\ b = F1dn => LtT[ia][ib]
+  /\ a = F015 /\ b \in {F03, VDec(1, 2)} => LtT[ia][ib]
   \* chronological: by day number, then second of the day, then microsecond
   /\ a.k = "date" /\ b.k = "date" => (LtT[ia][ib] <=> SeqLess(Instant(a.s), Instant(b.s)))
   /\ StT[ia][ib] = StT[ib][ia]
